@@ -24,9 +24,17 @@ structure Oracle where
   valid   : Std.HashMap Str Bool := {}
   expands : Std.HashMap (Str × Str) Bool := {}
 
+/-- The template answers the driver computes with are the *model's own* (`Model/Template`): the library's
+    answers the harness sends (`or.valid`, `or.exp`) are no longer loaded, they are **checked** against the
+    model on arrival (a difference is answered `or-mismatch …`, a correspondence break of its own class). The
+    two maps only memoise the model's answers for the pairs the harness announced. -/
 def Oracle.toT (o : Oracle) : TemplateOracle :=
-  { valid := fun s => (o.valid.get? s).getD false,
-    expands := fun s t => (o.expands.get? (s, t)).getD false }
+  { valid := fun s => match o.valid.get? s with
+      | some b => b
+      | none => Template.oracle.valid s,
+    expands := fun s t => match o.expands.get? (s, t) with
+      | some b => b
+      | none => Template.oracle.expands s t }
 
 structure SubSpec where
   sels : List Str
@@ -492,12 +500,17 @@ def step (st : DSt) (line : String) : DSt × String :=
     | _, _, _, _, _, _ => (st, "bad-op")
   | ["or.valid", s, v] =>
     match unhex s with
-    | some s => ({ st with oracle := { st.oracle with valid := st.oracle.valid.insert s (bool v) } }, "ok")
+    | some s =>
+      let m := Template.oracle.valid s
+      ({ st with oracle := { st.oracle with valid := st.oracle.valid.insert s m } },
+       if m == bool v then "ok" else s!"or-mismatch valid model={showBool m} library={v} sel={hex s}")
     | none => (st, "bad-op")
   | ["or.exp", s, t, v] =>
     match unhex s, unhex t with
     | some s, some t =>
-      ({ st with oracle := { st.oracle with expands := st.oracle.expands.insert (s, t) (bool v) } }, "ok")
+      let m := Template.oracle.expands s t
+      ({ st with oracle := { st.oracle with expands := st.oracle.expands.insert (s, t) m } },
+       if m == bool v then "ok" else s!"or-mismatch expands model={showBool m} library={v} sel={hex s} topic={hex t}")
     | _, _ => (st, "bad-op")
   | ["or.reset"] => ({ st with oracle := {} }, "ok")
   -- C11
